@@ -60,6 +60,10 @@ def run(prog, rule="R-LOGNOFAIL", floor=40):
                 cands[s] = (bid, lg)
         if not cands:
             continue
+        # the function's result is an error code by the library's convention: it returns through an error-code variable (a function that
+        # returns a count or a character - EGioWrite, EGioGets - says nothing with a 0)
+        if not any(e[0] == "R" and e[1] is not None and is_var(e[1], kind="l") and norm_local(strip(e[1])[2]) in RV for b, i, e in f.elements()):
+            continue
         names = ["rval", "__EGrval__"]
         cells = IntCells(names, lambda st, c: st[1][names.index(c)], lambda st, c, v: (st[0], st[1][:names.index(c)] + (v,) + st[1][names.index(c) + 1:]))
         rets = collections.defaultdict(set)
